@@ -35,7 +35,7 @@ TECHNIQUE = "perturbation of valid request batches sent raw (WSGI, hand-written 
 LEVEL_TEXT = (
     "Exploration: for generated signatures (0-4 parameters over the supported annotation grammar, unary / producer / "
     "exchange, with and without headers) every single-point perturbation family of a valid request batch was sent raw "
-    "over HTTP (unary and stream-init routes) and over a pipe; the implementation's invocation log and the status / "
+    "over HTTP (unary and stream-init routes), over a pipe and routed through a shared-memory pointer batch (inline schema = request schema / = declared schema); the implementation's invocation log and the status / "
     "error stream were compared with the expectation derived from the perturbation. Held means no counterexample "
     "among the requests listed in the evidence."
 )
